@@ -136,10 +136,10 @@ package leader
 //@   on store kvElection.isLeader as s when !s.value set $claimCleared = true
 //@   on call updateIsLeaderMetric set $gaugeFresh = true
 //@   on call kvElection.cancel assert C19+C09.election_ctx_cancelled_only_by_stop_paths: caller.mayCancelElection
-//@   on call kvElection.termCancel assert C19.term_ctx_cancelled_only_when_claim_cleared: caller.mayCancelTerm
+//@   on call kvElection.termCancel assert C03+C07+C19.term_ctx_cancelled_only_when_claim_cleared: caller.mayCancelTerm
 //@   ghost $tokenDrawn Bool = false
 //@   ghost $lastDrawn Int = 0
-//@   on call uuid.String set $tokenDrawn = true
+//@   on call uuid.String as u set $tokenDrawn = u.random
 //@   on call uuid.String as u set $lastDrawn = u.result
 //@   on call KeyValue.Create as c assert C05.token_drawn_for_this_attempt: $tokenDrawn && TokenOf(c.value) == $lastDrawn
 //@   on ret KeyValue.Create set $tokenDrawn = false
@@ -166,7 +166,7 @@ package leader
 
 //@ iface KeyValue.Update(key, value, rev, opts)
 //@   requires C01.key_is_group: key == e.key
-//@   requires C01+C10+C05+C13.update_is_refresh_or_takeover: Refresh(e, value, rev) || Takeover(e, value, rev)
+//@   requires C01+C10+C05+C07+C13.update_is_refresh_or_takeover: Refresh(e, value, rev) || Takeover(e, value, rev)
 //@   assumes result1 == nil ==> Own(result0) && result0 > rev && PubTok(result0) == TokenOf(value) && PubID(result0) == IDOf(value) && OwnTok(TokenOf(value))
 
 //@ iface KeyValue.Get(key)
@@ -253,6 +253,9 @@ package leader
 //@   ensures C16.invalid_never_contacts: !ValidCfg(cfg) ==> !contacted
 //@   ensures C16.validation_error_returned: !ValidCfg(cfg) ==> istype(result1, *ValidationError) && Offends(cfg, result1.(*ValidationError).Field)
 //@   ensures C16.accepts_valid: ValidCfg(cfg) && result1 != nil ==> contacted
+//@   ghost bucketHandle Int = 0
+//@   on ret JetStreamContext.KeyValue as r set bucketHandle = r.result0
+//@   ensures C01+C09.election_talks_to_the_bucket_handle_itself: result1 == nil ==> result0.kv == bucketHandle && result0.key == cfg.Group
 //@   ensures C16.initial_state: result1 == nil ==> result0 != nil && !result0.isLeader && result0.state == "INIT" && result0.ctx == nil && result0.revision == 0 && result0.token == ""
 
 //@ func NewElection(nc, cfg)
@@ -444,7 +447,7 @@ package leader
 //@   on call ConnectionMonitor.OnDisconnect as c assert C11.wires_disconnect_handler: isfunc(c.arg0, "disconnectHandler.handleDisconnect")
 //@   on call ConnectionMonitor.OnReconnect as c assert C11.wires_reconnect_handler: isfunc(c.arg0, "kvElection.handleReconnect")
 //@   ensures C11.monitor_wired: result == nil && e.connectionMonitor != nil ==> calls(ConnectionMonitor.Start) == 1 && calls(ConnectionMonitor.OnDisconnect) == 1 && calls(ConnectionMonitor.OnReconnect) == 1
-//@   on call becomeFollower assert C07.rounds_never_demote: false
+//@   on call becomeFollower assert C07+C08.rounds_never_demote: false
 
 //@ func (e *kvElection) attemptAcquireWithRetry(ctx)
 //@   tags C17 C06 C07
@@ -470,7 +473,7 @@ package leader
 //@   ghost lastErrNonNil Bool = false
 //@   on ret attemptAcquire as r set lastErrNonNil = r.result != nil
 //@   on call settleAsFollower assert C06+C07.fallback_only_after_last_attempt_failed: attempts == 4 && lastErrNonNil
-//@   on call becomeFollower assert C07.rounds_never_demote: false
+//@   on call becomeFollower assert C07+C08.rounds_never_demote: false
 //@   ghost bfCalled Bool = false
 //@   on call settleAsFollower set bfCalled = true
 //@   ghost sawCancel Bool = false
@@ -485,9 +488,12 @@ package leader
 //@   ghost tokDrawn Bool = false
 //@   ghost myTok Int = 0
 //@   on call uuid.String as c set myTok = c.result
-//@   on call uuid.String set tokDrawn = true
+//@   on call uuid.String as c set tokDrawn = c.random
 //@   on call KeyValue.Create as c assert C05.fresh_token_per_attempt: tokDrawn && TokenOf(c.value) == myTok
 //@   on call attemptPriorityTakeover assert C10.gate: e.cfg.AllowPriorityTakeover
+//@   ghost createRefused Bool = false
+//@   on ret KeyValue.Create as r set createRefused = r.result1 != nil
+//@   ensures C10.refused_create_leads_to_the_takeover_check: createRefused && e.cfg.AllowPriorityTakeover ==> calls(attemptPriorityTakeover) == 1
 //@   on call becomeLeader as c assert C05.claims_with_drawn_token: c.token == myTok
 //@   ghost sawLeader Bool = false
 //@   ghost leaderChecked Bool = false
@@ -545,7 +551,7 @@ package leader
 //@   ensures C08.promotion_goroutine_calls_back: scalls(onPromote) == ((claimed && promoteSet) ? 1 : 0)
 //@   ensures C09.no_promote_after_stop: stateL == "STOPPED" || ctxNilL ==> !claimed && scalls(heartbeatLoop) == 0 && scalls(validationLoop) == 0 && scalls(onPromote) == 0
 //@   ensures C02+C06.claims_when_running: stateL != "STOPPED" && !ctxNilL && !wasLeaderAtLock ==> claimed && scalls(heartbeatLoop) == 1 && scalls(validationLoop) == 1
-//@   ensures C08.no_second_term_on_top_of_a_term: wasLeaderAtLock ==> !claimed && scalls(heartbeatLoop) == 0 && scalls(validationLoop) == 0 && scalls(onPromote) == 0
+//@   ensures C03+C05+C07+C08.no_second_term_on_top_of_a_term: wasLeaderAtLock ==> !claimed && scalls(heartbeatLoop) == 0 && scalls(validationLoop) == 0 && scalls(onPromote) == 0
 
 // becomeFollower() and settleAsFollower() are thin unexported wrappers: always inlined into
 // their callers (where the caller's justification is known), never verified on their own.
@@ -592,6 +598,9 @@ package leader
 //@   ghost wasLeaderL Bool = false
 //@   ghost ctxNilL Bool = false
 //@   ghost demoteNilSeen Bool = false
+//@   ghost watchFlagCleared Bool = false
+//@   on store kvElection.watcherRunning as s when !s.value set watchFlagCleared = true
+//@   on return assert C06+C09.stop_frees_the_watch_slot: !ctxNilL ==> watchFlagCleared
 //@   ghost firstLock Bool = true
 //@   on lock kvElection.mu when firstLock set wasLeaderL = e.isLeader
 //@   on lock kvElection.mu when firstLock set ctxNilL = e.ctx == nil
@@ -618,6 +627,9 @@ package leader
 //@   ghost ctxNilL Bool = false
 //@   ghost mayDelete Bool = false
 //@   ghost demoteNilSeen Bool = false
+//@   ghost watchFlagCleared Bool = false
+//@   on store kvElection.watcherRunning as s when !s.value set watchFlagCleared = true
+//@   on return assert C06+C09.stop_frees_the_watch_slot: !ctxNilL ==> watchFlagCleared
 //@   ghost firstLock Bool = true
 //@   on lock kvElection.mu when firstLock set wasLeaderL = e.isLeader
 //@   on lock kvElection.mu when firstLock set ctxNilL = e.ctx == nil
@@ -637,7 +649,7 @@ package leader
 //@   on select as s assert C09.stop_waits_honour_the_callers_context: s.blocking ==> s.hasDone && s.doneCtx == ctx
 //@   ensures C08.demote_iff_claim_cleared: result == nil && !ctxNilL ==> (wasLeaderL ? (calls(onDemote) + scalls(onDemote) == 1 || (calls(onDemote) + scalls(onDemote) == 0 && demoteNilSeen)) : calls(onDemote) + scalls(onDemote) == 0)
 //@   ensures C09.delete_issued: result == nil && !ctxNilL && opts.DeleteKey && wasLeaderL ==> calls(KeyValue.Delete) + calls(RevisionDeleter.DeleteRevision) == 1
-//@   ensures C01+C07.delete_issued_at_most_once: calls(KeyValue.Delete) + scalls(KeyValue.Delete) + calls(RevisionDeleter.DeleteRevision) + scalls(RevisionDeleter.DeleteRevision) <= 1
+//@   ensures C01+C02+C07.delete_issued_at_most_once: calls(KeyValue.Delete) + scalls(KeyValue.Delete) + calls(RevisionDeleter.DeleteRevision) + scalls(RevisionDeleter.DeleteRevision) <= 1
 //@   ghost released Bool = false
 //@   on ret KeyValue.Delete set released = true
 //@   on ret RevisionDeleter.DeleteRevision set released = true
@@ -1232,7 +1244,7 @@ package leader
 //@ func (a *natsWatcherAdapter) Stop()
 //@   tags C14
 //@   on call nats.KeyWatcher.Stop as c assert C14.stop_passthrough: c.recv == a.watcher
-//@   ensures C14.stop_always_releases_the_watch: calls(nats.KeyWatcher.Stop) == 1
+//@   ensures C09+C14.stop_always_releases_the_watch: calls(nats.KeyWatcher.Stop) == 1
 
 //@ func (a *MockWatcherAdapter) Updates()
 //@   tags C14 C20
